@@ -16,7 +16,8 @@ MANIFEST = {
     "technique": "Coq proof (handler inversion + exact integer identities) + model/implementation correspondence at handler and wrapper level",
 }
 THEOREMS = ["C19_collect_fees_exact", "C19_emissions_conserved_and_capped", "C19_settle_pays_whole_tokens",
-            "C19_emissions_withdrawn_only_by_authority", "C19_emissions_destination_set_only_by_authority"]
+            "C19_emissions_withdrawn_only_by_authority", "C19_emissions_destination_set_only_by_authority",
+            "C19_emissions_funding_covers_recorded"]
 RULE = ("level C: handler sequences with fee buckets that are fractional, zero, or larger than the vault's liquidity, on SPL, "
         "Token-2022 and transfer-fee mints, interleaved with user activity and accrual; level B: sequences with emission flags, "
         "rates, remaining amounts and clock advances, with claim/settle operations. Non-trivial = a collect_fees that moved tokens "
@@ -74,7 +75,49 @@ def suites(rng, tier):
     b = [G.gen_case(rng, max_ops=24, limits="none", emissions=True) for _ in range(m)]
     return [{"suite": "hops", "name": "hops-fees", "lines": a, "distribution": {"cases": n}},
             {"suite": "bankops", "name": "bankops-emissions", "lines": b, "distribution": {"cases": m}},
-            destinations_suite(), payout_suite(rng, {"quick": 40, "thorough": 1500, "search": 300}[tier])]
+            destinations_suite(), payout_suite(rng, {"quick": 40, "thorough": 1500, "search": 300}[tier]),
+            funding_suite(rng, {"quick": 300, "thorough": 6000, "search": 1500}[tier])]
+
+
+U64 = (1 << 64) - 1
+
+
+def funding_suite(rng, n):
+    """the two instructions that FUND emissions (setup_emissions, update_emissions_parameters with a top-up) through the real
+    entry point: SPL, Token-2022 and transfer-fee emission mints (incl. a pending fee change around its activation epoch);
+    what the emissions vault receives is compared with what the bank records as funded"""
+    lines = []
+    for _ in range(n):
+        tokprog = rng.choice([0, 1, 2, 2, 2])
+        bps = rng.choice([0, 1, 5, 100, 500, 9999, 10000]) if tokprog == 2 else 0
+        mx = rng.choice([0, 1, 1000, 10 ** 9, U64]) if tokprog == 2 else 0
+        if tokprog == 2 and rng.random() < 0.5:
+            ob, om = rng.choice([0, 1, 100, 1000, 10000]), rng.choice([0, 5, 10 ** 6, U64])
+            en = rng.choice([1, 2, 600])
+            ep = rng.choice([en - 1, en, en, en + 1])
+        else:
+            ob = om = en = ep = 0
+        dec = rng.choice([0, 6, 9])
+        amt = lambda: rng.choice([0, 1, 999, 10 ** 6, 10 ** 9, 10 ** 12, rng.randrange(0, 10 ** 15), int(10 ** (rng.random() * 19.2)), U64 // 2])
+        lines.append(f"{tokprog} {bps} {mx} {ob} {om} {en} {ep} {dec} {min(U64, amt())} {rng.choice([0, 1, 5, 10 ** 6])} {min(U64, amt())}")
+    return {"suite": "emfund", "name": "emissions-funding", "lines": lines,
+            "distribution": {"cases": n, "mints": "SPL / Token-2022 / Token-2022 with transfer fee (half of them with a pending fee change)"}}
+
+
+def oracle_funding(case, impl):
+    for what, seg in zip(("setup_emissions", "update_emissions_parameters"), impl.split(" | ")):
+        t = seg.split()
+        if t[0] != "OK":
+            if len(t) == 4 and any(int(x) for x in t[1:]):
+                return {"key": "funding-failed-but-moved", "what": f"{what} failed ({t[0]}) yet balances changed: {seg}"}
+            continue
+        sent, recv, rec = map(int, t[1:4])
+        if recv < rec:
+            return {"key": "emissions-underfunded",
+                    "what": f"{what}: the bank recorded {rec} funded emission tokens but the emissions vault received {recv} (sent {sent})"}
+        if recv > sent or sent < 0:
+            return {"key": "emissions-funding-flow", "what": f"{what}: sent {sent}, vault received {recv}"}
+    return None
 
 
 def payout_suite(rng, n):
@@ -127,6 +170,8 @@ def destinations_suite():
 
 
 def nontrivial(suite, case, impl):
+    if suite == "emfund":
+        return any(seg.startswith("OK ") and int(seg.split()[3]) > 0 for seg in impl.split(" | "))
     if suite == "auth" and " k=emis " in case:
         return " E " in impl
     if suite == "auth":
@@ -152,6 +197,8 @@ def nontrivial(suite, case, impl):
 
 
 def oracle(suite, case, impl):
+    if suite == "emfund":
+        return oracle_funding(case, impl)
     if suite == "auth" and " k=emis " in case:
         return oracle_payout(case, impl)
     if suite == "auth":
